@@ -222,22 +222,63 @@ def access_calls(ctx, body):
 
 def typeid_comparisons(ctx):
     """All equality sites over access declarations reachable from build():
-    returns list of (body, bb, left_decl, right_decl) with decl = (alloc body id, alloc bb)."""
+    returns list of (body, bb, term, sides) with sides = 2 x (decl set, other sources), decl = (alloc body id, alloc bb)."""
+    return [x[:4] for x in typeid_comparisons_x(ctx)]
+
+
+def typeid_comparisons_x(ctx):
+    """as typeid_comparisons, with a fifth component `via`: when the comparison lives in a private helper that sees the two
+    lists only as parameters (`type_ids_overlap(left, right)`), one entry per call site of that helper (transitively), the
+    sides being what is passed THERE; via = ((body, bb) of the call sites, innermost first)."""
+    cache = ctx.model.__dict__.setdefault("_typeid_cmp_x", None)
+    if cache is not None:
+        return cache
     fl = ctx.model.flow
     out = []
+
+    def split(srcs):
+        decl = {(s[1], s[2]) for s in srcs if s.kind == "alloc" and s[4] in ACCESS_FNS}
+        oth = [s for s in srcs if not (s.kind == "alloc" and s[4] in ACCESS_FNS)]
+        return (decl, oth)
+
+    def expand(root_id, summ, via, depth):
+        """summ: two source sets in boundary mode of `root_id`"""
+        has_param = any(x.kind == "param" and x[1] == root_id for s_ in summ for x in s_)
+        sites = fl.call_sites().get(root_id, []) if has_param else []
+        sig = ctx.fb.fns.get(root_id)
+        if not has_param or not sites or depth > 3 or sig is None or fl.externally_callable(sig):
+            return [(summ, via)]
+        res = []
+        for (cb2, bb2, t2) in sites:
+            r2 = cb2.root
+            inst = [fl.instantiate_summary(cb2, t2, root_id, s_, "prov@" + r2) for s_ in summ]
+            res += expand(r2, inst, via + ((cb2, bb2),), depth + 1)
+        return res
+
     for b in build_reach(ctx):
         for bb, t in b.calls():
             p = callee_path(t)
             if p in ("std::cmp::PartialEq::eq", "std::cmp::PartialEq::ne", "std::slice::<impl [T]>::contains",
                      "smallvec::SmallVec::<A>::contains"):
+                rootb = ctx.fb.bodies.get(b.root)
+                done = False
+                if rootb is not None and rootb.kind == "fn" and fl.call_sites().get(b.root) and \
+                        not fl.externally_callable(ctx.fb.fns.get(b.root) or {"public": True}):
+                    summ = [fl.sources_operand(b, a, (), "prov@" + b.root) for a in t["args"][:2]]
+                    if any(x.kind == "param" and x[1] == b.root for s_ in summ for x in s_):
+                        for (inst, via) in expand(b.root, summ, (), 0):
+                            sides = [split(s_) for s_ in inst]
+                            if sides[0][0] or sides[1][0]:
+                                out.append((b, bb, t, sides, via))
+                        done = True
+                if done:
+                    continue
                 sides = []
                 for a in t["args"][:2]:
                     srcs = fl.sources_operand(b, a)
-                    decl = {(s[1], s[2]) for s in srcs if s.kind == "alloc" and s[4] in ACCESS_FNS}
-                    oth = [s for s in srcs if not (s.kind == "alloc" and s[4] in ACCESS_FNS)]
-                    sides.append((decl, oth))
+                    sides.append(split(srcs))
                 if sides[0][0] or sides[1][0]:
-                    out.append((b, bb, t, sides))
+                    out.append((b, bb, t, sides, ()))
         for bb, si, s in b.stmts():
             if s["k"] == "assign" and s["rv"]["k"] == "binop" and s["rv"]["op"] in ("Eq", "Ne"):
                 sides = []
@@ -246,7 +287,8 @@ def typeid_comparisons(ctx):
                     decl = {(x[1], x[2]) for x in srcs if x.kind == "alloc" and x[4] in ACCESS_FNS}
                     sides.append((decl, [x for x in srcs if not (x.kind == "alloc" and x[4] in ACCESS_FNS)]))
                 if sides[0][0] or sides[1][0]:
-                    out.append((b, bb, None, sides))
+                    out.append((b, bb, None, sides, ()))
+    ctx.model.__dict__["_typeid_cmp_x"] = out
     return out
 
 
@@ -307,8 +349,9 @@ def conflict_model(ctx):
             decl_role[(H.id, abb)] = (node, kind)
             acc[(H.id, abb)] = (kind, None, e)
     pairs = []
+    pairs_x = []
     unknown = []
-    for (cb, cbb, ct, sides) in typeid_comparisons(ctx):
+    for (cb, cbb, ct, sides, via) in typeid_comparisons_x(ctx):
         l, r = sides
         if not l[0] or not r[0] or l[1] or r[1]:
             unknown.append((cb, cbb, "comparison of an access declaration with something else"))
@@ -320,7 +363,9 @@ def conflict_model(ctx):
                     unknown.append((cb, cbb, "declaration of an unidentified node"))
                 else:
                     pairs.append((cb, cbb, rl, rr))
-    return {"site": sites[0], "a": a_e, "b": b_e, "decl_role": decl_role, "pairs": pairs, "unknown": unknown, "access": acc, "helpers": helpers}
+                    pairs_x.append((cb, cbb, ct, rl, rr, via))
+    return {"site": sites[0], "a": a_e, "b": b_e, "decl_role": decl_role, "pairs": pairs, "pairs_x": pairs_x, "unknown": unknown, "access": acc,
+            "helpers": helpers}
 
 
 def same_value_expr(ctx, body, e1, e2):
@@ -339,6 +384,84 @@ def norm_pair(rl, rr):
     if rl[0] == "B" and rr[0] == "A":
         return (rr[1], rl[1])
     return None
+
+
+def faithful_return(body, sym):
+    """the body's return value is the boolean `sym` (directly, or `if sym {true} else {false}`), under no other condition"""
+    exits = body.exits()
+    if len(exits) != 1:
+        return False, "several return blocks"
+    pcs = path_conditions(body, exits[0], ret_local=0)
+    if not pcs:
+        return False, "cannot enumerate its paths"
+    for pc in pcs:
+        other = [k for k in pc if k != "$ret" and k != sym]
+        if other:
+            return False, "its result also depends on %s" % (other[0],)
+        r = pc["$ret"]
+        if r == sym and sym not in pc:
+            continue
+        if r[0] == "const" and sym in pc:
+            if (pc[sym] != "0") == (str(r[1]) not in ("0", "false")):
+                continue
+            return False, "it returns the negation of the comparison"
+        return False, "it returns something other than the comparison's result"
+    return True, ""
+
+
+EXISTENTIAL_ADAPTORS = ("std::iter::Iterator::any",)
+
+
+def R1_existential(ctx, rule, cm):
+    """each declaration comparison is an equality whose result reaches its clause through existential quantifiers only
+    (`any` over `any`, `any` over `contains`): some declared type of one function equals some declared type of the other.
+    `all`, a negated comparison, or a closure returning something else decides a different predicate."""
+    m, fl = ctx.model, ctx.model.flow
+    n = 0
+    seen = set()
+    for (cb, cbb, ct, rl, rr, via) in cm.get("pairs_x", []):
+        if (cb.id, cbb) in seen:
+            continue
+        seen.add((cb.id, cbb))
+        if ct is None:
+            continue
+        p = callee_path(ct)
+        n += 1
+        key = "exists|%s" % short(cb.id)
+        if p == "std::cmp::PartialEq::ne":
+            ctx.bad(rule, key, m.where(cb, cbb), "the two declarations are compared with `!=`: the clause holds when the functions declare DIFFERENT types, "
+                    "not when they share one")
+            continue
+        x, sym = cb, ("call", cbb)
+        ok, why, where = True, "", m.where(cb, cbb)
+        hops = 0
+        while x.kind == "closure" and x.id != cm["site"][0].id and hops < 6:
+            hops += 1
+            f_ok, f_why = faithful_return(x, sym)
+            if not f_ok:
+                ok, why, where = False, "the closure %s does not hand on the comparison's result: %s" % (short(x.id), f_why), m.where(x)
+                break
+            uses = fl.closure_uses(x)
+            if len(uses) != 1:
+                ok, why, where = None, "closure %s has %d uses" % (short(x.id), len(uses)), m.where(x)
+                break
+            ub, ubb, ut, ai = uses[0]
+            up = callee_path(ut)
+            if up == "std::iter::Iterator::all":
+                ok, why, where = False, ("the comparison is quantified with `all`: the clause holds only if EVERY declared type matches (and for an empty "
+                                          "list), not if some type is shared"), m.where(ub, ubb)
+                break
+            if up not in EXISTENTIAL_ADAPTORS:
+                ok, why, where = None, "the comparison closure is consumed by `%s`, not by an existential `any`" % up, m.where(ub, ubb)
+                break
+            x, sym = ub, ("call", ubb)
+        if ok:
+            ctx.ok(rule, key, where, "the comparison is an equality reaching its clause through `any`/`contains` only (%d level(s))" % hops)
+        elif ok is None:
+            ctx.unverifiable(rule, key, where, why)
+        else:
+            ctx.bad(rule, key, where, why)
+    return n
 
 
 def R1(ctx, rule="R1"):
@@ -365,6 +488,7 @@ def R1(ctx, rule="R1"):
               "access declarations are not read from exactly the two endpoints: %s" % sorted(str(v) for v in cm["decl_role"].values()))
     # the insertion is taken iff any of the comparisons holds (truth table over the `any` results)
     R1_truth_table(ctx, rule, cm)
+    R1_existential(ctx, rule, cm)
     return cm
 
 
@@ -529,6 +653,23 @@ def R1_truth_table(ctx, rule, cm):
             cmp_bodies.setdefault(x.id, set()).add(n)
             x = ctx.fb.bodies.get(x.parent) if x.parent else None
 
+    # comparisons living in a parameter-only helper (`overlap(left, right)`): the clause, in the body that calls the helper with
+    # two concrete lists, is that call; the helper itself must return its own clause faithfully
+    via_syms = {}
+    inner_helpers = {}
+    for (cb, cbb, ct, rl, rr, via) in cm.get("pairs_x", []):
+        if not via:
+            continue
+        n = norm_pair(rl, rr)
+        ob, obb = via[-1]
+        via_syms.setdefault(ob.id, {}).setdefault(("call", obb), set()).add(n)
+        chain_b = [ctx.fb.bodies.get(cb.root)] + [vb for vb, _ in via[:-1]]
+        for k, hb in enumerate(chain_b):
+            if hb is not None:
+                inner_helpers[hb.id] = hb
+        for k, (vb, vbb) in enumerate(via[:-1]):
+            via_syms.setdefault(vb.id, {}).setdefault(("call", vbb), set()).add(n)
+
     def clause_syms(body):
         out = {}
         for cbb2, t2 in body.calls():
@@ -538,14 +679,19 @@ def R1_truth_table(ctx, rule, cm):
                     ty = body.locals[a["pl"]["l"]]
                     if ty.get("k") == "closure" and ty.get("def") in cmp_bodies:
                         out[("call", cbb2)] = frozenset(cmp_bodies[ty["def"]])
+        for sym_, ns in via_syms.get(body.id, {}).items():
+            out[sym_] = frozenset(ns)
         return out
     clause_of_sym = clause_syms(b)
     import itertools
     # a predicate helper: its return value must be the disjunction of its comparison clauses
-    for hbb, H in sorted(cm.get("helpers", {}).items()):
+    helper_list = [(hbb, H) for hbb, H in sorted(cm.get("helpers", {}).items())]
+    helper_ids = {H.id for _, H in helper_list}
+    helper_list += [(None, H) for hid, H in sorted(inner_helpers.items()) if hid not in helper_ids and hid != b.root]
+    for hbb, H in helper_list:
         hsyms = clause_syms(H)
         rets = H.exits()
-        hp = path_conditions(H, rets[0], ret_local=0) if len(rets) == 1 and hsyms else None
+        hp = path_conditions(H, rets[0], ret_local=0) if len(rets) == 1 and hsyms and H.kind == "fn" else None
         if not hp:
             ctx.unverifiable(rule, "helper|%s" % short(H.id), m.where(H), "cannot enumerate the paths of the predicate helper")
             continue
@@ -580,7 +726,8 @@ def R1_truth_table(ctx, rule, cm):
         ctx.check(h_ok and not extra, rule, "helper-table|%s" % short(H.id), m.where(H),
                   "the predicate helper returns true iff at least one of its %d declaration comparisons holds" % len(hs),
                   "the predicate helper is not the disjunction of its declaration comparisons (other conditions: %s)" % sorted(map(str, extra))[:4])
-        clause_of_sym[("call", hbb)] = frozenset(x for v in hsyms.values() for x in v)
+        if hbb is not None:
+            clause_of_sym[("call", hbb)] = frozenset(x for v in hsyms.values() for x in v)
     if not clause_of_sym:
         ctx.unverifiable(rule, "truth-table", where, "cannot relate the guard of the insertion to the comparison closures")
         return
@@ -985,6 +1132,7 @@ def R2_chain_filters(ctx, rule, cm):
     x = b
     # `for` loops around the insertion in its own body
     skip = ()
+    prev_next = prev_switch = None
     while True:
         lr = loop_region(ctx, b, bb, skip_headers=skip)
         if lr is None:
@@ -993,6 +1141,13 @@ def R2_chain_filters(ctx, rule, cm):
         if lr["early_exits"]:
             ctx.bad(rule, "loop-exit|%s" % short(b.id), m.where(b, lr["early_exits"][0][0]),
                     "the pair enumeration loop can be left early (break/return): later pairs are not examined")
+        if len(skip) >= 2:
+            # nested `for` loops: the inner loop is entered for every outer element
+            og = [g for g in cond_guards(b, prev_next) if g[0] in lr["blocks"] and g[0] != lr.get("switch_bb") and g[0] != prev_switch]
+            if og:
+                ctx.bad(rule, "outer-guard|%s" % short(b.id), m.where(b, og[0][0]),
+                        "the inner loop over an element's later candidates is skipped under `%s`: pairs of that element are never examined" % fmt_expr(strip_refs(og[0][1]), b)[:100])
+        prev_next, prev_switch = lr["next_bb"], lr.get("switch_bb")
         chain = iterator_chain(ctx, b, lr["iter_expr"]) if lr.get("iter_expr") is not None else []
         for p2, cb, e in chain:
             if p2 in SELECTIVE_ITER and p2 not in ("std::iter::Iterator::filter", RANGE_SKIP):
@@ -1009,6 +1164,14 @@ def R2_chain_filters(ctx, rule, cm):
         if cons != "std::iter::Iterator::for_each":
             ctx.bad(rule, "consumer|%s" % short(x.id), m.where(pb, ubb),
                     "pair enumeration uses %s (may stop early) instead of for_each" % cons)
+        # the enumeration one level down is started unconditionally: no early return / condition on the outer element (its rank,
+        # its access declarations) decides whether its pairs are examined at all
+        og = [g for g in cond_guards(pb, ubb) if (pb.blocks[g[0]]["term"].get("sp") or {}).get("desugar") != "Await"]
+        lr_pb = loop_region(ctx, pb, ubb)
+        og = [g for g in og if not (lr_pb is not None and g[0] == lr_pb.get("switch_bb"))]
+        if og:
+            ctx.bad(rule, "outer-guard|%s" % short(pb.id), m.where(pb, og[0][0]),
+                    "the scan of an element's later candidates is skipped under `%s`: pairs of that element are never examined" % fmt_expr(strip_refs(og[0][1]), pb)[:100])
         chain = iterator_chain(ctx, pb, expr_operand(pb, ut["args"][0]))
         for p2, cb, e in chain:
             if p2 == "std::iter::Iterator::filter":
@@ -2042,6 +2205,33 @@ def nondet_sites(ctx, bodies):
             if s["k"] == "assign" and s["rv"]["k"] == "cast" and "Expose" in s["rv"]["ck"]:
                 out.append((b, bb, "pointer-to-integer cast"))
     return out, n_calls
+
+
+BLOCKING_CALLS = ("futures::executor::block_on", "tokio::runtime::Handle::block_on", "tokio::runtime::Runtime::block_on", "std::thread::sleep",
+                  "tokio::sync::mpsc::Sender::<T>::blocking_send", "tokio::sync::mpsc::Receiver::<T>::blocking_recv",
+                  "tokio::sync::RwLock::<T>::blocking_write", "tokio::sync::RwLock::<T>::blocking_read", "tokio::sync::Mutex::<T>::blocking_lock",
+                  "tokio::task::block_in_place", "std::thread::park", "std::sync::Condvar::wait", "std::sync::Barrier::wait",
+                  "std::sync::mpsc::Receiver::<T>::recv", "futures::executor::block_on_stream")
+
+
+def N7(ctx, rule="N7"):
+    """nothing in the crate blocks the thread it runs on: no nested executor (`block_on`), blocking channel / lock operation,
+    sleep or park in any non-test body. A blocked scheduler thread cannot deliver the wake-up the blocked call waits for, and
+    runs sharing the task cannot make progress either."""
+    m = ctx.model
+    bad = []
+    n_calls = 0
+    for b in ctx.fb.prod_bodies():
+        for bb, t in b.calls():
+            n_calls += 1
+            p = callee_path(t) or ""
+            if p in BLOCKING_CALLS or p.split("::")[-1] in ("block_on", "blocking_send", "blocking_recv", "blocking_lock", "blocking_write", "blocking_read"):
+                bad.append((b, bb, p))
+    for b, bb, p in bad[:10]:
+        ctx.bad(rule, "blocking|%s|%s" % (short(b.id), p.split("::")[-1]), m.where(b, bb),
+                "%s blocks the calling thread (%s): called from a task, the wake-up it waits for may need this very thread" % (short(b.id), p))
+    if not bad:
+        ctx.ok(rule, "non-blocking", "-", "no nested executor, blocking channel/lock operation, sleep or park among %d calls of the crate" % n_calls)
 
 
 def N6(ctx, rule="N6"):
